@@ -41,11 +41,13 @@ F_INIT = "lerax.algorithm.off_policy:AbstractOffPolicyStepState.initial"
 F_RESET = "lerax.algorithm.off_policy:AbstractOffPolicyAlgorithm.reset"
 
 BOXA = lambda: Box(-jnp.ones((2,)), jnp.ones((2,)))
+# the per-step obligations hold for EVERY num_envs / num_steps / learning_starts / batch size: dimension variables (the step function must not depend on them)
+_NE, _TS, _LS, _BS = extract.symbolic_dims("NE, TS, LS, BS")
 CONFIGS = {
-    "SAC/box": (lambda: SAC(num_envs=1, buffer_size=8, learning_starts=2, batch_size=2), lambda: GenericEnv(BOXA()), lambda e: e),
-    "SAC/box/TimeLimit": (lambda: SAC(num_envs=1, buffer_size=8, learning_starts=2, batch_size=2), lambda: GenericEnv(BOXA()), lambda e: W.TimeLimit(e, 6)),
-    "DQN/discrete": (lambda: DQN(num_envs=1, buffer_size=8, learning_starts=2, batch_size=2), lambda: GenericEnv(Discrete(3)), lambda e: e),
-    "DQN/discrete/TimeLimit": (lambda: DQN(num_envs=1, buffer_size=8, learning_starts=2, batch_size=2), lambda: GenericEnv(Discrete(3)), lambda e: W.TimeLimit(e, 6)),
+    "SAC/box": (lambda: SAC(num_envs=_NE, num_steps=_TS, buffer_size=8, learning_starts=_LS, batch_size=_BS), lambda: GenericEnv(BOXA()), lambda e: e),
+    "SAC/box/TimeLimit": (lambda: SAC(num_envs=_NE, num_steps=_TS, buffer_size=8, learning_starts=_LS, batch_size=_BS), lambda: GenericEnv(BOXA()), lambda e: W.TimeLimit(e, 6)),
+    "DQN/discrete": (lambda: DQN(num_envs=_NE, num_steps=_TS, buffer_size=8, learning_starts=_LS, batch_size=_BS), lambda: GenericEnv(Discrete(3)), lambda e: e),
+    "DQN/discrete/TimeLimit": (lambda: DQN(num_envs=_NE, num_steps=_TS, buffer_size=8, learning_starts=_LS, batch_size=_BS), lambda: GenericEnv(Discrete(3)), lambda e: W.TimeLimit(e, 6)),
 }
 sd = jax.ShapeDtypeStruct
 f32 = jnp.float32
